@@ -57,13 +57,13 @@ def check(col: Collector, tier: str):
     whiles = enclosing(fn, w, (ast.While,), pm)
     if not fors or not whiles:
         raise AnalysisError("generate_script_block: emission is not inside `while ...: for block in ...:`")
-    # innermost for iterates <block>.script completely with the appended value = its loop variable
-    inner = fors[0]
-    whole = isinstance(inner.iter, ast.Attribute) and inner.iter.attr == "script" and isinstance(w, ast.Call) \
-        and call_name(w) == "append" and src(w.args[0]) == src(inner.target)
-    blockvar = src(inner.iter.value) if isinstance(inner.iter, ast.Attribute) else "?"
+    # the writer adds <block>.script whole and in order: out.extend(<block>.script)  (E-NORM N12: a loop that appends each line reads the same)
+    whole = isinstance(w, ast.Call) and call_name(w) == "extend" and len(w.args) == 1 and isinstance(w.args[0], ast.Attribute) and w.args[0].attr == "script"
+    blockvar = src(w.args[0].value) if whole else "?"
+    inner = pm[w]            # the statement that holds the writer (its siblings are the emitting branch)
+    fors = [inner] + list(fors)
     col.add("C15.R1", "generate_script_block", "emits-whole-script-in-order", whole,
-            f"the writer must append every line of <block>.script in order (loop over {src(inner.iter)})", g.loc)
+            f"the writer must add every line of <block>.script in order (found {src(w)[:60]})", g.loc)
     # guards: not in seen ; set(deps[name]) <= seen
     seen = None
     not_seen = False
